@@ -27,6 +27,7 @@ type mqRun[T any] struct {
 	addAfterClear int
 	peekOut       int
 	peekNeg       int
+	bigPeeks      int // bigPeek ops (seqbig.go)
 	popEmpty      int
 	maxLen        int
 }
@@ -126,6 +127,8 @@ func (r *mqRun[T]) apply(op Op) string {
 		return r.doPop()
 	case "front", "len":
 		return r.check()
+	case "bigPeek":
+		return r.bigPeek(a, abs(op.B), abs(op.C))
 	case "peek":
 		n := a % (len(r.ref) + 3)
 		if a >= 190 { // offsets at the end of the int range
@@ -260,6 +263,7 @@ func runMQueueOf[T any](c SeqCase, o *vk.Obs, b *bound[T]) string {
 	o.ClassIf(r.addAfterEmpty > 0, "add_after_pop_to_empty")
 	o.ClassIf(r.addAfterClear > 0, "add_after_clear_of_nonempty")
 	o.ClassIf(r.peekOut > 0, "peek_out_of_range")
+	o.ClassIf(r.bigPeeks > 0, "big_container_Peek_probes")
 	o.ClassIf(r.peekNeg > 0, "peek_negative")
 	o.ClassIf(r.popEmpty > 0, "pop_on_empty")
 	o.ClassIf(r.maxLen >= 8, "len>=8")
